@@ -207,7 +207,7 @@ def check_add_node(case) -> list[Fail]:
 
 SUBS = [
     Sub("index-exhaustive", check_index, enumerate=enum_index, nontrivial=nt_index, classes=cls_index, exhaustive=True, shardable=True),
-    Sub("index-large", check_index, strategy=big_strategy, nontrivial=nt_index, classes=cls_index, n_quick=1500, n_thorough=10000),
+    Sub("index-large", check_index, fuzz_runs=10000, strategy=big_strategy, nontrivial=nt_index, classes=cls_index, n_quick=1500, n_thorough=10000),
     Sub(
         "add_node",
         check_add_node,
